@@ -250,6 +250,10 @@ func C06(r *ev.Report) {
 		pairVals = alpha.Thin(alpha.Values(ref.N, 2), 16000)
 	}
 
+	if c06Light && !ev.Thorough() {
+		pairVals = alpha.Thin(vals, 400) // seam under another property: lighter pair product, same unary sweeps
+	}
+
 	r.Rule("Add/Subtract/Multiply on all ordered pairs of the value alphabet V_n (canonical- and Montgomery-structured limb products, closed under negation and +-1) in the aliasing shapes distinct/same; Square, Invert on all of V_n; Pow on a slice of V_n x exponent alphabet incl. nil and s.Pow(s); SetUInt64 on a uint64 alphabet; constants and nil operands from every prior receiver value; non-trivial = both operands >= 2^64")
 	r.Bound("values", len(vals))
 	r.Bound("pair_values", len(pairVals))
@@ -365,7 +369,23 @@ func valOf(v *big.Int) alpha.Val {
 	return alpha.Val{V: v, Raw: ref.Mont(v, ref.N)}
 }
 
+// c06Light selects the lighter pair product used when the scalar layer is checked as a seam under another property.
+var c06Light bool
+
+func c06Seam(r *ev.Report) {
+	c06Light = true
+	C06(r)
+}
+
 func init() {
+	// Bits, the ladder, comparisons and Random all sit on the Fiat scalar arithmetic and its domain conversions
+	for _, pid := range []string{"C01", "C13", "C14", "C18"} {
+		Parts[pid+"scalar"] = Part{pid, c06Seam}
+	}
+
+	// HashToScalar's wide reduction is two scalar multiplications and two additions: the scalar arithmetic is checked
+	// as a seam under C09 as well (its own inputs reach a defective operand class only by brute force over SHA-256).
+	Parts["C09scalar"] = Part{"C09", C06}
 	Parts["C06"] = Part{"C06", C06}
 	Replayers["C06"] = func(c Case) (bool, string) {
 		if c["op"] == "persist" {
